@@ -388,6 +388,13 @@ class Probe:
                 return []
             if e["name"] in ("unreachable", "panic", "todo", "unimplemented"):
                 raise Panic("%s!() reached" % e["name"])
+            if e["name"] in ("assert", "debug_assert") and e.get("args"):
+                c_ = self.ev(e["args"][0], env)
+                if c_ is True:
+                    return ()
+                if c_ is False:
+                    raise Panic("%s!(%s) fails" % (e["name"], src(e["args"][0])[:40]))
+                raise NoEval("assertion on an unknown value")
             raise NoEval("macro %s" % e["name"])
         if k in ("tuple", "array"):
             return [self.ev(x, env) for x in e["elems"]]
